@@ -221,6 +221,9 @@ def run_path(repo, registry, func: VFunc, contract, prefix, feas_ms):
         exc_names = [n[len("raises_"):] for n in contract.funcs if n.startswith("raises_")]
         if outcome[0] == "normal":
             values["result"] = outcome[1]
+            info["inputs"] = dict(info["inputs"])
+            info["inputs"]["$result"] = outcome[1]
+            info["inputs"]["$effects"] = VList(items=[VTuple([VStr(z3.StringVal(e[0]))] + [x for x in e[1:] if isinstance(x, V)]) for e in path.effects])
             for en in exc_names:
                 cond = it.truthy(it.eval_contract_fn(contract, "raises_" + en, dict(bound), fr.entry_heap, fr.entry_env, in_old_state=True))
                 path.oblige(f"{fr.qualname}#noraise:{en}", z3.Not(cond), line=line, kind="raises")
@@ -317,8 +320,9 @@ def _path_job_inner(prefix):
     global _PENDING, _Z3MS
     _Z3MS = z3_ms
     _PENDING = [({}, ob, info.get("inputs"), heap, list(path.trail)) for ob in path.obligations]
-    global _OBS
+    global _OBS, _CURHEAP
     _OBS = path.obs_log
+    _CURHEAP = path.heap
     for i, ob in enumerate(path.obligations):
         rec = {"name": ob.name, "line": ob.line, "kind": ob.kind, "note": ob.note}
         res = _solve_one(i)
@@ -411,6 +415,7 @@ def verify_function(repo, registry, qualname, feas_ms=1500, solve_now=True, z3_m
 _PENDING = None
 _Z3MS = None
 _OBS = None
+_CURHEAP = None
 
 
 def conjuncts(goal, depth=0):
@@ -418,6 +423,11 @@ def conjuncts(goal, depth=0):
         out = []
         for c in goal.children():
             out += conjuncts(c, depth + 1)
+        return out
+    if z3.is_not(goal) and z3.is_or(goal.arg(0)) and depth < 6:
+        out = []
+        for c in goal.arg(0).children():
+            out += conjuncts(z3.Not(c), depth + 1)
         return out
     if z3.is_quantifier(goal) and goal.is_forall() and depth < 6:
         body = goal.body()
@@ -450,7 +460,7 @@ def _solve_one(idx):
             if m is not None and inputs:
                 for pn, pv in inputs.items():
                     try:
-                        cex[pn] = _solve.value_to_py(m, pv, heap)
+                        cex[pn] = _solve.value_to_py(m, pv, heap if not pn.startswith("$") else _CURHEAP)
                     except Exception as e:  # pragma: no cover
                         cex[pn] = f"<unprintable: {e}>"
             if m is not None and _OBS:
